@@ -133,7 +133,7 @@ func (e *Engine) generate() {
 	// termination of recursion: a function on a call-graph cycle needs a measure
 	if e.P.Recursive(fn) {
 		if e.Contract == nil || e.Contract.Decreases == nil {
-			e.structural(e.FnKey+"/decreases-missing", "decreases", fn.Pos(), "recursive function has a decreases clause", false, "function is on a call-graph cycle and has no decreases clause")
+			e.structural(e.FnKey+"/decreases-missing", "rec-decreases", fn.Pos(), "recursive function has a decreases clause", false, "function is on a call-graph cycle and has no decreases clause")
 		} else {
 			e.entryMeasure = e.define(s, "measure0", "Int", e.evalTerm(s, ctx, e.Contract.Decreases.Expr))
 		}
